@@ -49,6 +49,13 @@ def make_rsa(rng, clsmap):
       arts[slot] = gen.rsa_healthy(rng, aid, 3072)
     elif c == 'healthy4096':
       arts[slot] = gen.rsa_healthy(rng, aid, 4096)
+    elif c == 'lhwA':
+      # primes of Hamming weight 8 and of unequal size (512 and 540 bits): CheckLowHammingWeight reports a suspicion without factors
+      # (positive entry with severity UNKNOWN)
+      from pv import weak
+      p_, q_ = weak.hamming_prime(rng, 512, 8), weak.hamming_prime(rng, 540, 8)
+      crit = dict({x: 'may' for x in gen.RSA_CHECKS}, CheckExponents='mustnot')
+      arts[slot] = checks.Art(aid, 'rsa', art.rsa_key(p_ * q_), 'lhw-suspect', n=p_ * q_, p=p_, q=q_, e=65537, crit=crit)
     elif c == 'healthypad':
       # a healthy key whose fields are encoded with leading zero bytes (fixed-width encoders do that): the same integers
       k = gen.rsa_healthy(rng, aid, 2048)
